@@ -60,7 +60,7 @@ Definition split_par (u : wunit) : list wunit :=
   | None => [u]
   end.
 
-Definition is_nil (v : value) : bool := match v with VNull => true | _ => false end.
+Definition is_nil (v : value) : bool := match v with VObj _ _ => false | _ => true end.
 
 Section Exec.
   Variable Q : quirks.
@@ -161,7 +161,8 @@ Section Exec.
 
   Definition resolve_union (ex : wunit -> xres) (uname : string) (s : selset) (items : list (value * path))
     : xres + err :=
-    let nils := filter (fun it => match fst it with VObj _ _ => false | _ => true end) items in
+    (* nil unions, and values that are not one of the members, stay null *)
+    let nils := filter (fun it => match fst it with VObj m _ => negb (is_member S uname m) | _ => true end) items in
     let hp := map (fun it => (snd it, NNull)) nils in
     let ms := filter (is_member S uname) (members_in_order items []) in
     let of_member (m : string) : xres + err :=
@@ -186,7 +187,7 @@ Section Exec.
     | _ =>
         match t with
         | TScalar _ | TEnum _ =>
-            inl (mk_xres (map (fun it => (snd it, match fst it with VLeaf j => NVal j | _ => NNull end)) items) [] [])
+            inl (mk_xres (map (fun it => (snd it, match fst it with VLeaf l => NVal (leaf_json l) | _ => NNull end)) items) [] [])
         | TNonNull t' => resolve ex t' ss items
         | TList t' =>
             let r := flatten_lists items in
